@@ -279,8 +279,10 @@ def run(ctx, report: Report) -> None:
     # ---- R7 ------------------------------------------------------------------------------------------------
     r7 = report.rule('C08-R7', 'the state pseudo-classes never raise on trees with multi-valued (list) attributes and odd text', floor=235)
     from ..core import Rule
-    from .sem import children_table, descendants_table, dir_table, lang_table, lang_memo_table, root_table
-    for table in (lang_table, lang_memo_table, dir_table, descendants_table, children_table, root_table):
+    from .sem import (alternatives_table, children_table, closest_filter_table, descendants_table, dir_table, empty_table, lang_table,
+                      lang_memo_table, nth_bounded_table, relations_table, root_table, select_walk_table)
+    for table in (lang_table, lang_memo_table, dir_table, descendants_table, children_table, root_table, nth_bounded_table, relations_table,
+                  empty_table, select_walk_table, closest_filter_table, alternatives_table):
         scratch = Rule(r7.rid, r7.title)
         table(ctx, scratch)
         r7.instances += scratch.instances
